@@ -204,6 +204,13 @@ template <class S, int N> void test_herm(vh::Rng& r, int mode) {
       diagonalize_hermitian<double, S, N>(m, w3, wb2);
       report(c, "values-only-overload", arrdiff<N>(w, w3, nrm), tol, m);
       report(c, "errbd-finite-nonneg", errbd_bad<N>(wb2, nullptr), 0, m);
+      // call histories: the full overload right after the values-only one on the same matrix, and after a call on a neighbouring matrix
+      // (values-only call first on a matrix not seen before, then the full overload on it; against the full overload after an unrelated call)
+      { Arr wv, wa, wb_, w7; Mat za, zb_, z7; double e1;
+        Mat mn = m; mn(0, 0) += (nrm > 0 ? nrm : 1.0) * 1e-3;
+        diagonalize_hermitian<double, S, N>(mn, wv, e1); diagonalize_hermitian<double, S, N>(mn, wa, za);
+        diagonalize_hermitian<double, S, N>(m, w7, z7); diagonalize_hermitian<double, S, N>(mn, wb_, zb_);
+        report(c, "call-history-same-result", std::max({arrdiff<N>(w, w7, nrm), (z - z7).norm(), arrdiff<N>(wa, wb_, nrm), (za - zb_).norm(), arrdiff<N>(wa, wv, nrm) > tol ? 1.0 : 0.0}), 0, m); }
    }
    {  // fs_diagonalize_hermitian: m = z^+ w z, |w| ascending
       Ctx c{std::string("fs_diagonalize_hermitian<") + sn + "," + std::to_string(N) + ">", HMODES[mode], tol, verdict};
@@ -223,6 +230,11 @@ template <class S, int N> void test_herm(vh::Rng& r, int mode) {
       report(c, "errbd-finite-nonneg", errbd_bad<N>(wb2, nullptr), 0, m);
       Mat z3; double wb3; fs_diagonalize_hermitian<double, S, N>(m, w4, z3, wb3);
       report(c, "errbd-finite-nonneg", errbd_bad<N>(wb3, nullptr), 0, m);
+      { Arr wv, wa, wb_, w7; Mat za, zb_, z7;
+        Mat mn = m; mn(0, 0) += (nrm > 0 ? nrm : 1.0) * 1e-3;
+        fs_diagonalize_hermitian<double, S, N>(mn, wv); fs_diagonalize_hermitian<double, S, N>(mn, wa, za);
+        fs_diagonalize_hermitian<double, S, N>(m, w7, z7); fs_diagonalize_hermitian<double, S, N>(mn, wb_, zb_);
+        report(c, "call-history-same-result", std::max({arrdiff<N>(w, w7, nrm), (z - z7).norm(), arrdiff<N>(wa, wb_, nrm), (za - zb_).norm(), arrdiff<N>(wa, wv, nrm) > tol ? 1.0 : 0.0}), 0, m); }
    }
 }
 
@@ -273,6 +285,11 @@ template <int N> void test_takagi_real(vh::Rng& r, int mode) {
       fs_diagonalize_symmetric<double, double, N>(m, s3, sb2);
       report(c, "values-only-overload", arrdiff<N>(s, s3, nrm), tol, m);
       report(c, "errbd-finite-nonneg", errbd_bad<N>(sb2, nullptr), 0, m);
+      { Arr sv, sa, sb_, s7; CMat ua, ub_, u7;
+        auto mn = m; mn(0, 0) += (nrm > 0 ? nrm : 1.0) * 1e-3;
+        fs_diagonalize_symmetric<double, double, N>(mn, sv); fs_diagonalize_symmetric<double, double, N>(mn, sa, ua);
+        fs_diagonalize_symmetric<double, double, N>(m, s7, u7); fs_diagonalize_symmetric<double, double, N>(mn, sb_, ub_);
+        report(c, "call-history-same-result", std::max({arrdiff<N>(s, s7, nrm), (u - u7).norm(), arrdiff<N>(sa, sb_, nrm), (ua - ub_).norm(), arrdiff<N>(sa, sv, nrm) > tol ? 1.0 : 0.0}), 0, m); }
    }
 }
 
@@ -334,6 +351,11 @@ template <class S, int N> void test_svd(vh::Rng& r, int mode) {
       report(c, "values-only-overload", arrdiff<N>(s, s3, nrm), TOL, m);
       fs_svd<double, S, N, N>(m, s4, sb2);
       report(c, "errbd-finite-nonneg", errbd_bad<N>(sb2, nullptr), 0, m);
+      { Arr sv, sa, sb_, s7; Mat ua, va, ub_, vb_, u7, v7;
+        Mat mn = m; mn(0, 0) += (nrm > 0 ? nrm : 1.0) * 1e-3;
+        fs_svd<double, S, N, N>(mn, sv); fs_svd<double, S, N, N>(mn, sa, ua, va);
+        fs_svd<double, S, N, N>(m, s7, u7, v7); fs_svd<double, S, N, N>(mn, sb_, ub_, vb_);
+        report(c, "call-history-same-result", std::max({arrdiff<N>(s, s7, nrm), (u - u7).norm(), (v - v7).norm(), arrdiff<N>(sa, sb_, nrm), (ua - ub_).norm(), (va - vb_).norm(), arrdiff<N>(sa, sv, nrm) > TOL ? 1.0 : 0.0}), 0, m); }
    }
 }
 // real matrix with complex factors (the chargino instantiation fs_svd<double,2,2>)
